@@ -9,7 +9,7 @@ from __future__ import annotations
 
 import json
 
-from .. import common, genrun, specgen
+from .. import common, genrun, shapes, specgen
 from ..common import Ctx
 
 LEVEL = "exploration"
@@ -198,6 +198,26 @@ def run_shard(ctx: Ctx) -> None:
                 trig = TRIGGERS[1]
             items.append({"doc": mk_doc(ctx, trig), "n": ctx.shard * 100000 + b + k, "trigger": trig})
         run_batch(ctx, items)
+    run_shapes(ctx)
+
+
+def run_shapes(ctx: Ctx) -> None:
+    """The exhaustive shape catalogue as INLINE request bodies and response bodies: every wrapper(wrapper(leaf)) type
+    expression appears in a method signature; client, Protocol and mock must spell it identically."""
+    chunks = shapes.chunked(2 if ctx.quick else 3, 20)
+    items = []
+    for ci, chunk in enumerate(chunks):
+        if not ctx.mine(ci):
+            continue
+        for kind, mk in (("response", shapes.response_document), ("request", shapes.request_document)):
+            if ctx.quick and (ci // ctx.nshards + (kind == "request")) % 2:
+                continue        # quick tier: every chunk in one of the two positions, alternating
+            sd = mk(chunk)
+            sd.features = set(getattr(sd, "features", set())) | {"shapes", f"shapes_as_{kind}"}
+            items.append({"doc": sd, "n": ctx.shard * 100000 + 50000 + 2 * ci + (kind == "request"), "trigger": {"shapes"}})
+            ctx.rec.count("shape_documents")
+    for i in range(0, len(items), 8):
+        run_batch(ctx, items[i:i + 8])
 
 
 def replay(ctx: Ctx, file: dict) -> None:
